@@ -63,3 +63,144 @@ Proof.
     destruct (Z.eqb_spec h' dh); cbn [andb]; [|cbn [b2z]; lia].
     destruct (Z.ltb_spec l' dl); cbn [b2z]; lia.
 Qed.
+
+(* ---- conditional increments ---- *)
+Lemma add_1_if_spec k r x : wf k x ->
+  wf k (fst (add_1_if k r x)) /\
+  val k (fst (add_1_if k r x)) + B k * b2z (snd (add_1_if k r x)) = val k x + b2z r.
+Proof.
+  intros H. unfold add_1_if. destruct r; [apply add_1_spec; auto|].
+  cbn [fst snd b2z]. split; [auto|lia].
+Qed.
+
+Lemma add_1_high_if_spec k r (x : ru (S k)) : wf (S k) x ->
+  wf (S k) (fst (add_1_high_if k r x)) /\
+  val (S k) (fst (add_1_high_if k r x)) + B (S k) * b2z (snd (add_1_high_if k r x)) = val (S k) x + B k * b2z r.
+Proof.
+  intros [H1 H2]. unfold add_1_high_if. destruct r.
+  - pose proof (add_1_spec k (snd x) H2) as [Hw E]. destruct (add_1 k (snd x)) as [h r']. cbn [fst snd] in *.
+    split; [split; auto|]. rewrite !val_S, B_S. cbn [fst snd b2z]. nia.
+  - cbn [fst snd b2z]. split; [split; auto|lia].
+Qed.
+
+Lemma add_high_if_spec k r (a : ru (S k)) x : wf (S k) a -> wf k x ->
+  wf (S k) (fst (add_high_if k r a x)) /\
+  val (S k) (fst (add_high_if k r a x)) + B (S k) * b2z (snd (add_high_if k r a x))
+    = val (S k) a + B k * (b2z r * val k x).
+Proof.
+  intros [H1 H2] Hx. unfold add_high_if. destruct r.
+  - pose proof (add_c_spec k (snd a) x H2 Hx) as [Hw E]. destruct (add_c k (snd a) x) as [h r']. cbn [fst snd] in *.
+    split; [split; auto|]. rewrite !val_S, B_S. cbn [fst snd b2z]. nia.
+  - cbn [fst snd b2z]. split; [split; auto|lia].
+Qed.
+
+(* abstract every `val k x` to an integer variable (keeping the range facts posed before) *)
+Ltac absval := repeat match goal with
+  | H : context[val ?k ?x] |- _ => let z := fresh "z" in set (z := val k x) in *; clearbody z
+  | |- context[val ?k ?x] => let z := fresh "z" in set (z := val k x) in *; clearbody z end.
+Ltac ranges := repeat match goal with H : wf ?k ?x |- _ => pose proof (val_range k x H); clear H end.
+Ltac mulhyp E m := let H := fresh "M" in pose proof (f_equal (Z.mul m) E) as H.
+
+Lemma b2z_or a b : b2z a + b2z b <= 1 -> b2z (a || b) = b2z a + b2z b.
+Proof. destruct a, b; cbn; lia. Qed.
+
+(* a sum that is < 2 * B^2 has carry at most one *)
+Lemma carry_le_1 (B2 L S b c d : Z) : 0 < B2 -> 0 <= b < B2 -> 0 <= c < B2 -> 0 <= d < B2 * B2 -> 0 <= L -> 0 <= S ->
+  L + B2 * B2 * S = b * c + d -> S <= 1.
+Proof. intros. assert (b * c <= (B2 - 1) * (B2 - 1)) by nia. nia. Qed.
+Lemma carry_0 (B2 L S b c d : Z) : 0 < B2 -> 0 <= b < B2 -> 0 <= c < B2 -> 0 <= d < B2 -> 0 <= L -> 0 <= S ->
+  L + B2 * B2 * S = b * c + d -> S = 0.
+Proof. intros. assert (b * c <= (B2 - 1) * (B2 - 1)) by nia. nia. Qed.
+
+Lemma pair_range Bk lo hi : 0 < Bk -> 0 <= lo < Bk -> 0 <= hi < Bk -> 0 <= lo + Bk * hi < Bk * Bk.
+Proof. intros. nia. Qed.
+Lemma pair_nonneg3 Bk a b c : 0 < Bk -> 0 <= a -> 0 <= b -> 0 <= c -> 0 <= a + Bk * b + Bk * Bk * c.
+Proof. intros. nia. Qed.
+
+Lemma laddmul2_step_ok k lm la2 : lmul_ok k lm -> laddmul2_ok k la2 ->
+  laddmul2_ok (S k) (laddmul2_step k lm la2).
+Proof.
+  intros Hlm Hla2 [bl bh] [cl ch] [dl dh] [Hbl Hbh] [Hcl Hch] [Hdl Hdh].
+  unfold laddmul2_step. cbn [fst snd].
+  pose proof (Hla2 bl cl dl Hbl Hcl Hdl) as (W1 & W2 & E1). destruct (la2 bl cl dl) as [[x0 x1] rlow]. cbn [fst snd] in *.
+  pose proof (Hlm bh cl Hbh Hcl) as (W3 & W4 & E2). destruct (lm bh cl) as [m0 m1]. cbn [fst snd] in *.
+  pose proof (Hla2 bl ch (m0, m1) Hbl Hch (conj W3 W4)) as (W5 & W6 & E3). destruct (la2 bl ch (m0, m1)) as [[n0 n1] rmid]. cbn [fst snd] in *.
+  pose proof (Hla2 bh ch dh Hbh Hch Hdh) as (W7 & W8 & E4). destruct (la2 bh ch dh) as [[h0 h1] rhigh]. cbn [fst snd] in *.
+  pose proof (add_c_spec k x1 n0 W2 W5) as (W9 & E5). destruct (add_c k x1 n0) as [alhi rlow2]. cbn [fst snd] in *.
+  pose proof (add_c_spec k h0 n1 W7 W6) as (W10 & E6). destruct (add_c k h0 n1) as [ahlo rmid2]. cbn [fst snd] in *.
+  pose proof (add_1_if_spec (S k) rlow (ahlo, h1) (conj W10 W8)) as (W11 & E7). destruct (add_1_if (S k) rlow (ahlo, h1)) as [a1 c1]. cbn [fst snd] in *.
+  pose proof (add_1_if_spec (S k) rlow2 a1 W11) as (W12 & E8). destruct (add_1_if (S k) rlow2 a1) as [a2 c2]. cbn [fst snd] in *.
+  pose proof (add_1_high_if_spec k rmid a2 W12) as (W13 & E9). destruct (add_1_high_if k rmid a2) as [a3 c3]. cbn [fst snd] in *.
+  pose proof (add_1_high_if_spec k rmid2 a3 W13) as (W14 & E10). destruct (add_1_high_if k rmid2 a3) as [a4 c4]. cbn [fst snd] in *.
+  split; [split; assumption|]. split; [assumption|].
+  rewrite (val_S k (bl, bh)), (val_S k (cl, ch)), (val_S (S k) (dl, dh)).
+  rewrite (val_S k (x0, alhi)). rewrite (val_S k (m0, m1)) in E3. rewrite (val_S k (ahlo, h1)) in E7. cbn [fst snd] in *.
+  ranges. absval. rewrite !B_S in *. pose proof (B_pos k). set (Bk := B k) in *. clearbody Bk.
+  assert (Hid : z5 + Bk * z13 + Bk * Bk * z18 + (Bk * Bk) * (Bk * Bk) * (b2z c1 + b2z c2 + b2z c3 + b2z c4 + b2z rhigh)
+                = (z + Bk * z0) * (z1 + Bk * z2) + (z3 + Bk * Bk * z4)).
+  { mulhyp E2 Bk. mulhyp E3 Bk. mulhyp E4 (Bk * Bk). mulhyp E5 Bk. mulhyp E6 (Bk * Bk).
+    mulhyp E7 (Bk * Bk). mulhyp E8 (Bk * Bk). mulhyp E9 (Bk * Bk). mulhyp E10 (Bk * Bk). lia. }
+  pose proof (b2z_range c1). pose proof (b2z_range c2). pose proof (b2z_range c3). pose proof (b2z_range c4).
+  pose proof (b2z_range rhigh).
+  assert (HS : b2z c1 + b2z c2 + b2z c3 + b2z c4 + b2z rhigh <= 1).
+  { apply (carry_le_1 (Bk * Bk) (z5 + Bk * z13 + Bk * Bk * z18) _ (z + Bk * z0) (z1 + Bk * z2) (z3 + Bk * Bk * z4));
+      [nia | apply pair_range; lia | apply pair_range; lia | apply pair_range; lia | apply pair_nonneg3; lia | lia | exact Hid]. }
+  clear - Hid HS. destruct c1, c2, c3, c4, rhigh; cbn [orb b2z] in *; lia.
+Qed.
+
+Lemma laddmul_step_ok k lm la la2 : lmul_ok k lm -> laddmul_ok k la -> laddmul2_ok k la2 ->
+  laddmul_ok (S k) (laddmul_step k lm la la2).
+Proof.
+  intros Hlm Hla Hla2 [bl bh] [cl ch] d [Hbl Hbh] [Hcl Hch] Hd.
+  unfold laddmul_step. cbn [fst snd].
+  pose proof (Hla2 bl cl d Hbl Hcl Hd) as (W1 & W2 & E1). destruct (la2 bl cl d) as [[x0 x1] rlow]. cbn [fst snd] in *.
+  pose proof (Hlm bh cl Hbh Hcl) as (W3 & W4 & E2). destruct (lm bh cl) as [m0 m1]. cbn [fst snd] in *.
+  pose proof (Hla2 bl ch (m0, m1) Hbl Hch (conj W3 W4)) as (W5 & W6 & E3). destruct (la2 bl ch (m0, m1)) as [[n0 n1] rmid]. cbn [fst snd] in *.
+  pose proof (Hla bh ch n1 Hbh Hch W6) as (W7 & W8 & E4 & R4). destruct (la bh ch n1) as [[h0 h1] rhigh]. cbn [fst snd] in *.
+  pose proof (add_c_spec k x1 n0 W2 W5) as (W9 & E5). destruct (add_c k x1 n0) as [alhi rlow2]. cbn [fst snd] in *.
+  pose proof (add_1_if_spec (S k) rlow (h0, h1) (conj W7 W8)) as (W11 & E7). destruct (add_1_if (S k) rlow (h0, h1)) as [a1 c1]. cbn [fst snd] in *.
+  pose proof (add_1_if_spec (S k) rlow2 a1 W11) as (W12 & E8). destruct (add_1_if (S k) rlow2 a1) as [a2 c2]. cbn [fst snd] in *.
+  pose proof (add_1_high_if_spec k rmid a2 W12) as (W13 & E9). destruct (add_1_high_if k rmid a2) as [a3 c3]. cbn [fst snd] in *.
+  split; [split; assumption|]. split; [assumption|]. subst rhigh.
+  rewrite (val_S k (bl, bh)), (val_S k (cl, ch)), (val_S k (x0, alhi)).
+  rewrite (val_S k (m0, m1)) in E3. rewrite (val_S k (h0, h1)) in E7. cbn [fst snd] in *.
+  pose proof (val_range _ _ Hd) as Rd. ranges. rewrite !B_S in *. pose proof (B_pos k).
+  assert (Hid : val k x0 + B k * val k alhi + B k * B k * val (S k) a3 + (B k * B k) * (B k * B k) * (b2z c1 + b2z c2 + b2z c3)
+                = (val k bl + B k * val k bh) * (val k cl + B k * val k ch) + val (S k) d).
+  { mulhyp E2 (B k). mulhyp E3 (B k). mulhyp E4 (B k * B k). mulhyp E5 (B k).
+    mulhyp E7 (B k * B k). mulhyp E8 (B k * B k). mulhyp E9 (B k * B k). lia. }
+  pose proof (b2z_range c1). pose proof (b2z_range c2). pose proof (b2z_range c3).
+  assert (HS : b2z c1 + b2z c2 + b2z c3 = 0).
+  { apply (carry_0 (B k * B k) (val k x0 + B k * val k alhi + B k * B k * val (S k) a3) _
+             (val k bl + B k * val k bh) (val k cl + B k * val k ch) (val (S k) d));
+      [nia | apply pair_range; lia | apply pair_range; lia | lia | apply pair_nonneg3; lia | lia | exact Hid]. }
+  clear - Hid HS. destruct c1, c2, c3; cbn [orb b2z] in *; lia.
+Qed.
+
+Lemma naive_step_ok k nv la la2 : lmul_ok k nv -> laddmul_ok k la -> laddmul2_ok k la2 ->
+  lmul_ok (S k) (lmul_naive_step k nv la la2).
+Proof.
+  intros Hnv Hla Hla2 [bl bh] [cl ch] [Hbl Hbh] [Hcl Hch].
+  unfold lmul_naive_step. cbn [fst snd].
+  pose proof (Hnv bl cl Hbl Hcl) as (W1 & W2 & E1). destruct (nv bl cl) as [x0 x1]. cbn [fst snd] in *.
+  pose proof (Hnv bh cl Hbh Hcl) as (W3 & W4 & E2). destruct (nv bh cl) as [m0 m1]. cbn [fst snd] in *.
+  pose proof (Hla2 bl ch (m0, m1) Hbl Hch (conj W3 W4)) as (W5 & W6 & E3). destruct (la2 bl ch (m0, m1)) as [[n0 n1] rmid]. cbn [fst snd] in *.
+  pose proof (Hla bh ch n1 Hbh Hch W6) as (W7 & W8 & E4 & R4). destruct (la bh ch n1) as [[h0 h1] rhigh]. cbn [fst snd] in *.
+  pose proof (add_c_spec k x1 n0 W2 W5) as (W9 & E5). destruct (add_c k x1 n0) as [alhi rlow]. cbn [fst snd] in *.
+  pose proof (add_1_if_spec (S k) rlow (h0, h1) (conj W7 W8)) as (W11 & E7). destruct (add_1_if (S k) rlow (h0, h1)) as [a1 c1]. cbn [fst snd] in *.
+  pose proof (add_1_high_if_spec k rmid a1 W11) as (W13 & E9). destruct (add_1_high_if k rmid a1) as [a3 c3]. cbn [fst snd] in *.
+  split; [split; assumption|]. split; [assumption|].
+  rewrite (val_S k (bl, bh)), (val_S k (cl, ch)), (val_S k (x0, alhi)).
+  rewrite (val_S k (m0, m1)) in E3. rewrite (val_S k (h0, h1)) in E7. cbn [fst snd] in *.
+  ranges. rewrite !B_S in *. pose proof (B_pos k).
+  assert (Hid : val k x0 + B k * val k alhi + B k * B k * val (S k) a3 + (B k * B k) * (B k * B k) * (b2z c1 + b2z c3)
+                = (val k bl + B k * val k bh) * (val k cl + B k * val k ch) + 0).
+  { mulhyp E2 (B k). mulhyp E3 (B k). mulhyp E4 (B k * B k). mulhyp E5 (B k).
+    mulhyp E7 (B k * B k). mulhyp E9 (B k * B k). lia. }
+  pose proof (b2z_range c1). pose proof (b2z_range c3).
+  assert (HS : b2z c1 + b2z c3 = 0).
+  { apply (carry_0 (B k * B k) (val k x0 + B k * val k alhi + B k * B k * val (S k) a3) _
+             (val k bl + B k * val k bh) (val k cl + B k * val k ch) 0);
+      [nia | apply pair_range; lia | apply pair_range; lia | nia | apply pair_nonneg3; lia | lia | exact Hid]. }
+  clear - Hid HS. rewrite HS in Hid. lia.
+Qed.
